@@ -21,6 +21,9 @@ for pid in ids:
     if getattr(m, "NOT_APPLICABLE", None):
         na.append({"property_id": pid, "reason": m.NOT_APPLICABLE})
         continue
+    if not getattr(m, "READY", False):
+        na.append({"property_id": pid, "reason": "check under construction: not registered until it passes on the unchanged tree"})
+        continue
     checks.append({
         "property_id": pid,
         "quick_cmd": "./check %s --tier quick" % pid,
@@ -32,6 +35,12 @@ for pid in ids:
         "level_note": m.LEVEL_NOTE,
         "technique": m.TECHNIQUE,
     })
+import glob
+allf = []
+for fp in sorted(glob.glob(os.path.join(ROOT, "findings", "C*.json"))):
+    allf += json.load(open(fp)).get("findings", [])
+with open(os.path.join(ROOT, "KNOWN_FINDINGS.json"), "w") as f:
+    json.dump({"comment": "GENERATED union of findings/C*.json by tools/mkmanifest.py. Genuine defects of cmpute/dashu found by the checks. status=open: recorded, suppressed only for the exact class named; status=fixed: repaired by a 'fix:' commit in /repo, suppresses nothing. Never written at run time.", "findings": allf}, f, indent=1)
 hooks = subprocess.run(["git", "-C", "/repo", "log", "--format=%H %s"], capture_output=True, text=True).stdout.splitlines()
 hook_commits = [l.split()[0] for l in hooks if "verif hooks" in l]
 manifest = {
